@@ -186,6 +186,21 @@ def _replay(beh):
     for st in beh["steps"]:
         f, kind, v = st["func"], st["kind"], st["variant"]
         try:
+            if kind == "scalar_precision":
+                s = 1e-50 if f == "tiny" else 0.1
+                A64 = A.to(torch.float64)
+                call, ref = {"torch.mul": (lambda: torch.mul(op, s), A64 * s), "torch.mul_second": (lambda: torch.mul(s, op), A64 * s),
+                             "torch.div": (lambda: torch.div(op, 1.0 / 0.1), A64 / (1.0 / 0.1)), "tiny": (lambda: op * s, A64 * s)}[f]
+                if f == "tiny" and dtype != torch.float64:
+                    continue
+                got = call()
+                got = got.to_dense() if hasattr(got, "to_dense") else got
+                if got.dtype != dtype:
+                    fails.append((f, v, "scalar product of a %s operator has dtype %s" % (dtype, got.dtype)))
+                err = float((got.to(torch.float64) - ref).abs().max()) / max(1e-300, float(ref.abs().max()))
+                if not err <= (1e-12 if dtype == torch.float64 else 1e-6):
+                    fails.append((f, v, "python scalar %g entered with less than the operator's precision: relative error %.3g" % (s, err)))
+                continue
             if kind == "second_refused":
                 X = bind.tensor(st["arg"], dtype) + 3.0
                 call = {"torch.div": lambda: torch.div(X, op), "torch.linalg.solve": lambda: torch.linalg.solve(X, op), "Tensor.div": lambda: X / op}[f]
